@@ -45,6 +45,9 @@ CHECKS = {
     "C13": C("c13", dict(checks=400, shards=4, timeout=600), dict(checks=6000, shards=16, timeout=6000),
              "property-based testing (rapid): generated histories ending in an invalid change; metamorphic oracle: a rejected call leaves the canonical snapshot of every read query unchanged",
              "Trusted: Observe (the snapshot of all read queries). Accepted attempts are not judged here (validity of accepted states is C37)."),
+    "C14": C("c14", dict(checks=250, shards=4, timeout=600), dict(checks=5000, shards=16, timeout=6000),
+             "property-based testing (rapid): generated edit histories with snapshots; invariant over the history: every snapshot's canonical observation stays equal to the one recorded when it was taken, and the live world reflects each edit",
+             "Trusted: Observe (the snapshot of all read queries). Moves that the world rejects (they would invalidate a closed path) are skipped."),
     "C31": C("c31", dict(checks=4000, shards=2, timeout=300), dict(checks=40000, shards=16, timeout=3000),
              "property-based testing (rapid): round trips of generated feature IDs through every encoding, and order laws on generated triples with a differential against the compact index order",
              "Trusted: encoders/decoders of encoding/json, gopkg.in/yaml.v2 and protobuf. IDs in the postcode and ONS alias namespaces are restricted to values the packers produce (other values have no alias form). Namespaces exclude control characters."),
